@@ -424,7 +424,7 @@ func (d *c12Drv) cli(t *testing.T, r *rand.Rand, dir string) int {
 		if toks[0] > 0 {
 			bounds = append([]uint64{0}, toks...)
 		}
-		nl := []int{1, 2, 50}[c%3] // the commands refuse an empty input file (no encoding to detect)
+		nl := []int{1, 7, 50}[c%3] // the commands refuse an empty input file (no encoding to detect)
 		lats := make([]uint64, nl)
 		for i := range lats {
 			b := bounds[r.Intn(len(bounds))]
@@ -438,7 +438,8 @@ func (d *c12Drv) cli(t *testing.T, r *rand.Rand, dir string) int {
 		must(err)
 		enc := vegeta.NewEncoder(f)
 		for i, l := range lats {
-			must(enc.Encode(&vegeta.Result{Seq: uint64(i), Code: 200, Timestamp: time.Unix(1700000000, 0), Latency: time.Duration(l)}))
+			e := []string{"", "", "e1", "e1", "connection refused"}[i%5] // repeated error texts
+			must(enc.Encode(&vegeta.Result{Seq: uint64(i), Code: 200, Timestamp: time.Unix(1700000000, 0), Latency: time.Duration(l), Error: e}))
 		}
 		f.Close()
 		text := bucketsText(r, toks)
